@@ -184,7 +184,7 @@ func c16RunOne(spec c16Spec) (res c16Obs) {
 }
 
 // c16Guard runs one scenario under a generous wall-clock watchdog. A round normally takes
-// microseconds; if it has not ended after 60 s the virtual clock is stuck behind a goroutine
+// microseconds; if it has not ended after 10 min the virtual clock is stuck behind a goroutine
 // that never blocks (a busy loop in the collector), which is reported as a hang and ends the
 // run at once because the spinning goroutine cannot be stopped.
 func c16Guard(r *ev.Run, id string, spec c16Spec) (c16Obs, bool) {
@@ -194,7 +194,15 @@ func c16Guard(r *ev.Run, id string, spec c16Spec) (c16Obs, bool) {
 	case o := <-ch:
 		return o, true
 	case <-time.After(60 * time.Second):
-		r.Violation("MeasureClockOffsets|hang|round did not end (60 s wall clock, virtual time stuck)", id, map[string]any{"spec": spec})
+	}
+	// not a verdict yet: on a machine that is busy with other work a scenario has been seen to sit for a
+	// minute (thorough sweep, three checks and a dozen other processes at once); a busy loop never ends
+	select {
+	case o := <-ch:
+		r.Class("scenario took more than 60 s of wall clock (machine busy)")
+		return o, true
+	case <-time.After(9 * time.Minute):
+		r.Violation("MeasureClockOffsets|hang|round did not end (10 min wall clock, virtual time stuck)", id, map[string]any{"spec": spec})
 		r.Eval(1)
 		r.Finish("run aborted after a hang; see violation", 0)
 		return c16Obs{}, false
@@ -420,8 +428,8 @@ func c16ChainCheck(r *ev.Run, id string, specs []c16Spec) {
 	var got ret
 	select {
 	case got = <-ch:
-	case <-time.After(60 * time.Second):
-		r.Violation("MeasureClockOffsets|hang|round did not end (60 s wall clock, virtual time stuck)", id, map[string]any{"rounds": specs})
+	case <-time.After(10 * time.Minute):
+		r.Violation("MeasureClockOffsets|hang|round did not end (10 min wall clock, virtual time stuck)", id, map[string]any{"rounds": specs})
 		r.Eval(1)
 		return
 	}
